@@ -93,16 +93,16 @@ class Prov:
         return d
 
     # ------------------------------------------------------------------ terms
-    def operand(self, f, op):
+    def operand(self, f, op, at=None):
         k = op['k']
         if k in ('copy', 'move'):
-            return self.place(f, op['pl'])
+            return self.place(f, op['pl'], at)
         if k == 'const':
             return ('const', op['ty'], op['v'], op.get('fn'))
         return ('unknown', 'operand')
 
-    def place(self, f, pl):
-        base = self.local(f, pl['l'], pl['p'])
+    def place(self, f, pl, at=None):
+        base = self.local(f, pl['l'], pl['p'], at)
         return base
 
     def _project(self, t, proj):
@@ -150,17 +150,22 @@ class Prov:
             if rv['adt'] in ('tuple', 'array') or not fields:
                 i = idx if idx is not None else (name if isinstance(name, int) else None)
                 if i is not None and i < len(ops):
-                    return self.operand(f, ops[i])
+                    return self.operand(f, ops[i], at=t[2])
             else:
                 if str(name) in fields:
-                    return self.operand(f, ops[fields.index(str(name))])
+                    return self.operand(f, ops[fields.index(str(name))], at=t[2])
                 if isinstance(name, int) and idx is None:
                     idx = name
                 if idx is not None and idx < len(ops):
-                    return self.operand(f, ops[idx])
+                    return self.operand(f, ops[idx], at=t[2])
             return ('unknown', 'agg field %r' % (name,))
         if t[0] == 'phi':
             return self._phi([self._field(x, name, idx) for x in t[1]])
+        if t[0] == 'with':
+            for n, ov in t[2]:
+                if n == str(name):
+                    return ov
+            return self._field(t[1], name, idx)
         return ('field', t, name)
 
     def _phi(self, ts):
@@ -176,7 +181,7 @@ class Prov:
             return out[0]
         return ('phi', tuple(out))
 
-    def local(self, f, l, proj=()):
+    def local(self, f, l, proj=(), at=None):
         proj = list(proj)
         # partial definitions of exactly this place take precedence (e.g. `_5.0 = x`)
         dl = self.defs(f).get(l, [])
@@ -189,6 +194,25 @@ class Prov:
                     ts.append(self._project(self._def_term(f, d), proj[len(d[3]):]))
                 return self._phi(ts)
         base = self._local_whole(f, l)
+        # field overwrites of a local that also has a whole definition: `ctx.trace_context = x`
+        partial = [d for d in dl if d[0] == 'stmt' and len(d[3]) == 1 and d[3][0][0] == 'f']
+        if partial and at is not None:
+            from . import cfg as _cfg
+            sure, maybe = {}, {}
+            for d in partial:
+                name = d[3][0][2]
+                if d[1] == at or _cfg.dominates(f, d[1], at):
+                    sure.setdefault(name, []).append(self._def_term(f, d))
+                elif at in _cfg.reachable(f, d[1]):
+                    maybe.setdefault(name, []).append(self._def_term(f, d))
+            if sure or maybe:
+                ovs = []
+                for name in sorted(set(sure) | set(maybe)):
+                    alts = list(sure.get(name, [])) + list(maybe.get(name, []))
+                    if name not in sure:
+                        alts.append(self._field(base, name))
+                    ovs.append((name, self._phi(alts)))
+                base = ('with', base, tuple(ovs))
         return self._project(base, proj)
 
     def _local_whole(self, f, l):
@@ -222,9 +246,9 @@ class Prov:
         rv = s['rv']
         k = rv['k']
         if k == 'use':
-            return self.operand(f, rv['op'])
+            return self.operand(f, rv['op'], at=d[1])
         if k == 'ref':
-            return ('ref', self.place(f, rv['pl']))
+            return ('ref', self.place(f, rv['pl'], at=d[1]))
         if k == 'agg':
             return ('agg', f.id, d[1], d[2])
         if k == 'discr':
@@ -244,7 +268,7 @@ class Prov:
 
     def call_args(self, t):
         f = self.F.fns[t[1]]
-        return [self.operand(f, a) for a in self.call_term(t)['args']]
+        return [self.operand(f, a, at=t[2]) for a in self.call_term(t)['args']]
 
     def call_name(self, t):
         c = self.call_term(t).get('callee')
@@ -475,6 +499,12 @@ class Prov:
                     sub = self.subst(ret, callee.id, self.args_of(t))
                     self._root(sub, path, depth - 1, out)
                     return
+        if k == 'with':
+            if path and path[0][0] == 'f':
+                self._root(self._field(t, path[0][1]), path[1:], depth - 1, out)
+                return
+            out.append((t, path))
+            return
         if k == 'agg' and path:
             rv = self._agg_rv(t)
             step = path[0]
@@ -640,4 +670,6 @@ class Prov:
         if k == 'local':
             f = self.F.fns[t[1]]
             return f.local_name(t[2]) or '_%d' % t[2]
+        if k == 'with':
+            return '%s{%s}' % (self.describe(t[1], depth - 1), ','.join(n for n, _ in t[2]))
         return repr(t)[:80]
